@@ -11,6 +11,7 @@
   content alone, whatever follows.
 -/
 import AHP.Model.Lexer
+import AHP.Lemmas.Ws
 namespace AHP
 
 /-- the closing expression of the raw-text element `name` matches at no position of the content -/
@@ -172,9 +173,7 @@ theorem lexRaw_render (name raw rest : Str) (hlow : lower name = name) (hne : na
 
 /-! ### white space after the content (the formatter's `_indent` before the end tag) -/
 
-theorem lowerChar_ws (c : Char) (h : isWs c = true) : lowerChar c = c := by
-  simp only [isWs, Bool.or_eq_true, decide_eq_true_eq] at h
-  rcases h with (((((((((e|e)|e)|e)|e)|e)|e)|e)|e)|e) <;> (subst e; decide)
+theorem lowerChar_ws (c : Char) (h : isWs c = true) : lowerChar c = c := lowerChar_of_isWs h
 
 theorem dropWhile_ws_all (w : Str) (hw : ∀ c ∈ w, isWs c = true) : w.dropWhile isWs = [] := by
   induction w with
